@@ -22,7 +22,7 @@ CHECKS.update({
    note='Trusts the monitor sim/checks/c16.py; stat() entries are read from the branch a node was really added on (copies only carry default-valued entries).'),
  'C17': dict(engine='proofsim', level='fault_enumeration', ref='DESIGN.md §6 C17',
    technique='deterministic simulation with fault injection: virtual clock with seeded deadline jumps and stalls, enumeration of step-limit cut points against a fault-free twin, lifecycle call histories against a reference state machine',
-   text='For each sampled proof (all logics, seeded schedule/options) a fault-free twin fixes natural length n and verdict; then every step-limit cut 1..n+1 (thorough; a seeded subset in quick) plus None/0/-1, deadline faults placed at seeded clock-read indices on a virtual clock (first step, mid, last step, model generation, after completion, stalled clock, ticking clock), and a lifecycle history of API calls are injected and judged: bounded steps, unchanged proof when the limit does not bite, premature/no verdict/tree rules, timeout raised neither early nor late relative to the public build timer, finished tableaux inert, setters and rule-set mutations locked after start.',
+   text='For each sampled proof (all logics, seeded schedule/options) a fault-free twin fixes natural length n and verdict; then every step-limit cut 1..n+1 (thorough; a seeded subset in quick) plus None/0/-1, deadline faults placed at seeded clock-read indices on a virtual clock (first step, mid, last step, model generation, after completion, stalled clock, ticking clock), and a lifecycle history of API calls (also on tableaux started from a hand-made branch, without a trunk) are injected and judged: bounded steps, unchanged proof when the limit does not bite, premature/no verdict/tree rules, timeout raised neither early nor late relative to the public build timer, finished tableaux inert, setters and rule-set mutations locked after start.',
    note='Clock is monotone; deadline positions and lifecycle histories are sampled, cut points are enumerated per sampled proof (n<=60).'),
  'C01': dict(engine='proofsim', level='exploration', ref='DESIGN.md §6 C01',
    technique='deterministic simulation: seeded search over arguments x logics x option combinations x drive modes x tie-break schedules; oracle = bounded countermodel search in an independent reference semantics plus cross-schedule witnesses (models the prover produced on another schedule, re-evaluated by the reference); witness-aware root-cause diagnosis',
@@ -38,7 +38,7 @@ CHECKS.update({
    note='Trusts R1; a disagreement is localised to the innermost clause and adjudicated against doc/logics before being listed.'),
  'C09': dict(engine='proofsim', level='exploration', ref='DESIGN.md §6 C09',
    technique='deterministic simulation: families of independently scheduled runs of one argument (8 lexical-hash salts in fresh interpreters x option combinations x drive modes x seeded tie-break orders x premise permutations/duplications), verdict classes compared within and across workers over the recorded history; drive modes compared under one schedule',
-   text='Each sampled (logic, argument) is proved under every lexical salt and, per salt, several configurations from {group optim} x {rank optim} x {build, step loop, stepiter} x tie-break seeds x premise orders/duplications. Alarm iff a family holds both a valid and a refuted outcome, a member raises, or the three drive modes differ under one schedule. Premise arrangements (original, reversed, rotated, duplicated: one premise rotating with the salt, or every premise twice) are systematic per run. Limit-only outcomes are excluded as stated.',
+   text='Each sampled (logic, argument) is proved under every lexical salt and, per salt, several configurations from {group optim} x {rank optim} x {build, step loop, stepiter} x tie-break seeds x premise orders/duplications. Alarm iff a family holds both a valid and a refuted outcome, a member raises, or the three drive modes differ under one schedule. Premise arrangements (original, reversed, rotated, duplicated: one premise rotating with the salt, or every premise twice) are systematic per run; families of modal logics include identity-across-worlds, modal-interplay and boxed-universal-at-sibling-worlds templates with fixed shares. Limit-only outcomes are excluded as stated.',
    note='A valid/refuted pair cannot both be right, so the alarm is never spurious; R1 is used only to name the side and rule at fault.'),
  'C10': dict(engine='proofsim', level='exploration', ref='DESIGN.md §6 C10',
    technique='deterministic simulation: families of independently scheduled runs of related arguments (conclusion-among-premises, added premise, injective renamings of letters/constants/predicates/bound variables), laws checked over the recorded outcomes',
